@@ -628,7 +628,11 @@ def body(check):
     check.guarded("EFF-DEFAULT-MUT", "flowdyn", lambda: default_mut(check))
     res, info = analyse_solve(proj)
     analyse_entry_points(proj, res)
+    # "solving N iterations then restarting for M more": the iteration limit of a run counts THAT run's iterations (a criterion
+    # that counts the restart offset stops the restart after M - N iterations, or at once) -- same obligation as C07 DRV-STOP
+    from ..driver_rules import analyse_check_end
+    analyse_check_end(proj, res)
     check.inventory.update(info)
-    report(check, res, ("TS-FRESH-MAIN", "DRV-SNAPSHOT", "DRV-IT-STAMP", "DRV-RESET", "DRV-FORWARD", "DRV-COUNT", "DRV-DT-MIN", "DRV-CALLER-PURE"))
+    report(check, res, ("DRV-STOP", "TS-FRESH-MAIN", "DRV-SNAPSHOT", "DRV-IT-STAMP", "DRV-RESET", "DRV-FORWARD", "DRV-COUNT", "DRV-DT-MIN", "DRV-CALLER-PURE"))
     # restart continues from f.it: copies must carry the iteration tag
     check.guarded("FIELD-DEEPCOPY", "field.fdata", lambda: field_deepcopy(check))
